@@ -1277,13 +1277,22 @@ def real_subprocess_checks():
 
     import threading as _th
     per_thread = {}
+    fallback = [None]
     RealPopen = subprocess.Popen
+    # server processes inherit stdout/stderr: a leaked server must not keep the harness' pipe open
+    result_fd = os.dup(1)
+    devnull = os.open(os.devnull, os.O_RDWR)
+    os.dup2(devnull, 1)
+    os.dup2(devnull, 2)
 
     class _Launched(object):
         """the list of server processes launched by the calling thread (one list per part)"""
 
         def _l(self):
-            return per_thread.setdefault(_th.get_ident(), [])
+            me = _th.get_ident()
+            if me not in per_thread and fallback[0] is not None:
+                return fallback[0]          # a starter thread created by prepare(): counts for the running scenario
+            return per_thread.setdefault(me, [])
 
         def append(self, p):
             self._l().append(p)
@@ -1315,6 +1324,13 @@ def real_subprocess_checks():
     def attempt(name, fn):
         # a real launch has a fixed 5 s budget (remote.py:60); on a loaded machine a healthy server may
         # need longer to start - that is not what this part decides, so such a run is repeated
+        per_thread[_th.get_ident()] = []
+        try:
+            _attempt(name, fn)
+        finally:
+            per_thread.pop(_th.get_ident(), None)      # thread idents are reused by later threads
+
+    def _attempt(name, fn):
         for k in range(4):
             try:
                 out[name] = fn()
@@ -1444,6 +1460,8 @@ def real_subprocess_checks():
                     box['v'] = fn()
                 except BaseException as e:      # noqa
                     box['e'] = e
+                finally:
+                    per_thread.pop(_th.get_ident(), None)   # thread idents are reused
             th = _th.Thread(target=tgt, daemon=True)
             th.start()
             th.join(limit)
@@ -1503,18 +1521,153 @@ def real_subprocess_checks():
                 p.wait()
         return r
 
+    # (e) the server of a session ends when its connection ends: after k requests (k = 0: the session was only
+    #     pre-started with prepare()) the connection ends by close(), by the client end being closed, by the
+    #     client PROCESS dying, or by undecodable bytes; the server process must be gone within the deadline
+    CLIENT_SRC = r"""
+import os, sys, time, subprocess
+root, k = sys.argv[1], int(sys.argv[2])
+sys.path.insert(0, root)
+pids = []
+RealPopen = subprocess.Popen
+class P(RealPopen):
+    def __init__(self, *a, **kw):
+        RealPopen.__init__(self, *a, **kw)
+        pids.append(self.pid)
+subprocess.Popen = P
+from supp.remote import Environment
+env = Environment()
+replies = 0
+if k == 0:
+    env.prepare()
+    deadline = time.time() + 25
+    while not hasattr(env, 'conn') and time.time() < deadline:
+        time.sleep(0.05)
+    time.sleep(0.3)
+else:
+    for j in range(k):
+        if env.eval('return %d' % j) == j:
+            replies += 1
+sys.stdout.write('%d %d %d\n' % (pids[-1] if pids else -1, replies, int(hasattr(env, 'conn'))))
+sys.stdout.flush()
+os._exit(0)
+"""
+
+    def pid_running(pid):
+        try:
+            with open('/proc/%d/stat' % pid) as f:
+                data = f.read()
+        except (IOError, OSError):
+            return False
+        return data.rsplit(')', 1)[1].split()[0] not in ('Z', 'X')
+
+    def scenario(k, ending):
+        import signal
+        sc = {'requests': k, 'ending': ending, 'replies': 0, 'exited': False, 'exit_s': None}
+        if ending == 'client_dies':
+            repo_root = os.path.dirname(os.path.dirname(os.path.abspath(R.__file__)))
+            cp = RealPopen([sys.executable, '-c', CLIENT_SRC, repo_root, str(k)], stdout=subprocess.PIPE,
+                           stderr=subprocess.DEVNULL)
+            try:
+                import select
+                rd, _, _ = select.select([cp.stdout], [], [], 60.0)
+                line = cp.stdout.readline().decode() if rd else ''
+            finally:
+                if cp.poll() is None:
+                    try:
+                        cp.wait(10)
+                    except Exception:
+                        cp.kill()
+                        cp.wait()
+            parts = line.split()
+            if len(parts) != 3 or int(parts[0]) <= 0 or not int(parts[2]):
+                sc['error'] = 'client process did not bring the server up: %r' % line
+                sc['inconclusive'] = True
+                return sc
+            pid = int(parts[0])
+            sc['replies'] = int(parts[1])
+            t0 = time.time()
+            while time.time() - t0 < 20.0:
+                if not pid_running(pid):
+                    sc['exited'] = True
+                    sc['exit_s'] = round(time.time() - t0, 2)
+                    break
+                time.sleep(0.05)
+            if not sc['exited']:
+                try:
+                    os.kill(pid, signal.SIGKILL)
+                except OSError:
+                    pass
+            return sc
+        n0 = len(launched)
+        fallback[0] = launched._l()
+        env = R.Environment()
+        try:
+            if k == 0:
+                env.prepare()
+                deadline = time.time() + 25
+                while not hasattr(env, 'conn') and time.time() < deadline:
+                    time.sleep(0.05)
+                if not hasattr(env, 'conn'):
+                    sc['error'] = 'prepare() did not bring the server up within 25 s'
+                    sc['inconclusive'] = True
+                    return sc
+                time.sleep(0.3)
+            else:
+                for j in range(k):
+                    if env.eval('return %d' % j) == j:
+                        sc['replies'] += 1
+            p = launched[-1]
+            if ending == 'close':
+                env.close()
+            elif ending == 'conn_closed':
+                env.conn.close()
+            else:
+                env.conn.send_bytes(b'\xc1')        # 0xc1 is not MessagePack
+            sc['exit_s'] = wait_exit(p, 20.0)
+            sc['exited'] = sc['exit_s'] is not None
+        finally:
+            fallback[0] = None
+            for p in launched[n0:]:
+                if p.poll() is None:
+                    p.kill()
+                p.wait()
+        return sc
+
+    def part_e():
+        r = {'ok': False, 'scenarios': []}
+        for k, ending in ((0, 'conn_closed'), (0, 'close'), (0, 'client_dies'), (1, 'client_dies'),
+                          (2, 'conn_closed'), (1, 'close'), (0, 'garbage'), (2, 'garbage')):
+            for _try in range(3):
+                try:
+                    sc = scenario(k, ending)
+                except Exception as e:
+                    if type(e) is Exception and str(e).startswith('Supp server launching timeout exceed'):
+                        sc = {'requests': k, 'ending': ending, 'inconclusive': True, 'error': str(e)[:80]}
+                    else:
+                        sc = {'requests': k, 'ending': ending, 'replies': 0, 'exited': False,
+                              'error': '%s: %s' % (type(e).__name__, str(e)[:80])}
+                if not sc.get('inconclusive'):
+                    break
+                time.sleep(2.0)
+            r['scenarios'].append(sc)
+        r['ok'] = all(sc.get('exited') and sc.get('replies') == sc['requests'] and not sc.get('inconclusive')
+                      for sc in r['scenarios'] if sc['ending'] != 'garbage')
+        return r
+
     def ab():
         attempt('a', part_a)
         attempt('b', part_b)
         attempt('d', part_d)
 
-    ths = [_th.Thread(target=ab), _th.Thread(target=attempt, args=('c', part_c))]
+    ths = [_th.Thread(target=ab), _th.Thread(target=attempt, args=('c', part_c)),
+           _th.Thread(target=attempt, args=('e', part_e))]
     for t in ths:
         t.start()
     for t in ths:
         t.join()
     subprocess.Popen = RealPopen
-    print('C16REAL ' + json.dumps(out, default=repr))
+    os.write(result_fd, ('C16REAL ' + json.dumps(out, default=repr) + '\n').encode())
 
 
 if __name__ == '__main__':
